@@ -44,10 +44,11 @@ Frags(m, n, sq) ==
       c == (Len(data) + n - 1) \div n
       piece(i) == SubSeq(data, ((i - 1) * c) + 1, IF i * c > Len(data) THEN Len(data) ELSE i * c)
   IN [i \in 1..n |-> (IF i = 1 THEN <<131, 69>> ELSE <<131, 70>>) \o U64(sq) \o U64(n + 1 - i) \o piece(i)]
-JunkKinds == {"junk_random", "junk_truncated", "junk_marker", "junk_fraghdr", "junk_badcontrol", "junk_empty_tuple"}
+JunkKinds == {"junk_random", "junk_truncated", "junk_marker", "junk_fraghdr", "junk_badcontrol", "junk_empty_tuple", "junk_badheader"}
 JunkBytes(k) ==
   CASE k = "junk_random" -> <<1, 2, 3, 4, 5>>
     [] k = "junk_truncated" -> LET b == IF HeaderMode THEN HDR(Msgs[2]) ELSE PT(Msgs[2]) IN SubSeq(b, 1, Len(b) \div 2)
+    [] k = "junk_badheader" -> IF HeaderMode THEN <<131, 68, 3, 255>> ELSE <<112, 131, 68, 3, 255>>      \* announces three cache references and stops
     [] k = "junk_marker" -> <<111>> \o Encode(Msgs[1][1])
     [] k = "junk_fraghdr" -> <<131, 69>> \o U64(9) \o U64(2) \o <<5, 1, 2>>
     [] k = "junk_badcontrol" -> IF HeaderMode THEN MsgBytes(<<>>, <<VTuple(<<VBin(<<1>>), SmallInt(1)>>)>>) ELSE <<112>> \o Encode(VTuple(<<VBin(<<1>>), SmallInt(1)>>))
@@ -67,9 +68,14 @@ Step(k, i) == /\ nfr < MaxFrames /\ nfr' = nfr + 1 /\ hist' = Append(hist, <<k, 
               \* a reference to earlier entries needs them to be what the sender thinks they are; fragmented messages
               \* (known finding C06-fragments) are kept out of the way of cache re-use
               /\ (k \in ReuseKinds => (i > 0 /\ ~fragSeen /\ Matches(Msgs[i], slots, SegOf(k))))
-              /\ slots' = IF k \in DefKinds THEN Defines(Msgs[i], slots, SegOf(k)) ELSE slots
+              \* the header of a frame takes effect as soon as it is complete, also when the rest of the frame cannot be decoded
+              \* (a truncated message still defines the cache entries its header carries); a frame without a readable header defines nothing
+              /\ slots' = IF k \in DefKinds THEN Defines(Msgs[i], slots, SegOf(k))
+                          ELSE IF k \in JunkKinds /\ HeaderMode /\ ReadHeader(JunkBytes(k), slots)[1] THEN ReadHeader(JunkBytes(k), slots)[2]
+                          ELSE slots
               /\ fragSeen' = (fragSeen \/ k \in {"frag2", "frag3"})
-GNext == ((\E k \in Kinds, i \in MsgIdx : Step(k, i)) \/ (~Targeted /\ \E k \in JunkKinds : Step(k, 0))) /\ UNCHANGED hvars
+\* (targeted histories also put an undecodable header frame between definitions and re-use: the cache must survive it)
+GNext == ((\E k \in Kinds, i \in MsgIdx : Step(k, i)) \/ (\E k \in (IF Targeted THEN {"junk_truncated", "junk_badheader"} ELSE JunkKinds) : Step(k, 0))) /\ UNCHANGED hvars
 GSpec == GInit /\ [][GNext]_<<gvars, hvars>>
 \* frames (bytes) and surfaced results of a finished scenario
 FramesOf(h) == LET f(j) == LET k == h[j][1]  i == h[j][2] IN
